@@ -109,6 +109,11 @@ func DirFiles(dir string) map[string]string {
 		}
 		p := filepath.Join(dir, e.Name())
 		if e.Type()&fs.ModeSymlink != 0 {
+			// the directory hash reads through links: a link to a readable file counts as that content
+			if data, err := os.ReadFile(p); err == nil {
+				out[e.Name()] = fmt.Sprintf("f:%x", sha256.Sum256(data))
+				continue
+			}
 			t, _ := os.Readlink(p)
 			out[e.Name()] = "l:" + t
 			continue
